@@ -22,21 +22,43 @@ L = "mir::lower::Lowerer::<'r>::"
 LM = "mir::lower::match_expr::<impl mir::lower::Lowerer<'_>>::"
 
 # function -> list of (earlier event, later event); event = (callee last segment, param name the argument must be rooted at or None)
+# Parameters are selected by TYPE and position, never by name (a rename must not matter):
+# E0/E1 = first/second parameter holding an expression, B0 = first block, OB = optional block, ...
+SEL = {
+    "E0": ("Meta<ast::Expr>", 0), "E1": ("Meta<ast::Expr>", 1), "B0": ("Meta<ast::Block>", 0),
+    "OB": ("Option<parser::meta::Meta<ast::Block>>", 0), "OE": ("Option<std::boxed::Box<parser::meta::Meta<ast::Expr>>>", 0),
+    "RECV": ("Option<(mir::Value", 0), "ARGS": ("[parser::meta::Meta<ast::Expr>]", 0),
+}
 CHAINS = {
-    L + "binop": [(("expr", "l"), ("expr", "r")), (("assign_to_var", "l"), ("expr", "r"))],
-    L + "desugared_binop": [(("expr", "l"), ("expr", "r")), (("assign_to_var", "l"), ("expr", "r"))],
-    L + "shortcircuit_binop": [(("expr", "l"), ("emit_switch", None)), (("emit_switch", None), ("new_block", None)), (("new_block", None), ("expr", "r"))],
-    L + "if_else": [(("expr", "condition"), ("emit_switch", None)), (("emit_switch", None), ("block", "then")), (("emit_switch", None), ("block", "r#else"))],
-    L + "r#while": [(("new_block", None), ("expr", "condition")), (("expr", "condition"), ("emit_switch", None)),
-                    (("emit_switch", None), ("block", "block")), (("block", "block"), ("emit_jump", None))],
-    L + "r#for": [(("expr", "expr"), ("emit_jump", None)), (("expr", "expr"), ("block", "body")), (("emit_switch", None), ("block", "body"))],
-    L + "assign": [(("expr", "expr"), ("emit_drop", None)), (("emit_drop", None), ("do_assign", None))],
-    L + "question_mark": [(("expr", "expr"), ("emit_switch", None)), (("emit_switch", None), ("return_value", None))],
-    L + "r#return": [(("expr", "expr"), ("return_value", None))],
-    L + "access": [(("expr", "expr"), ("assign_to_var", None))],
-    L + "normalized_function_call": [(("do_assign", "receiver"), ("closure-visit", "arguments"))],
+    L + "binop": [(("expr", "E0"), ("expr", "E1")), (("assign_to_var", "E0"), ("expr", "E1"))],
+    L + "desugared_binop": [(("expr", "E0"), ("expr", "E1")), (("assign_to_var", "E0"), ("expr", "E1"))],
+    L + "shortcircuit_binop": [(("expr", "E0"), ("emit_switch", None)), (("emit_switch", None), ("new_block", None)), (("new_block", None), ("expr", "E1"))],
+    L + "if_else": [(("expr", "E0"), ("emit_switch", None)), (("emit_switch", None), ("block", "B0")), (("emit_switch", None), ("block", "OB"))],
+    L + "r#while": [(("new_block", None), ("expr", "E0")), (("expr", "E0"), ("emit_switch", None)),
+                    (("emit_switch", None), ("block", "B0")), (("block", "B0"), ("emit_jump", None))],
+    L + "r#for": [(("expr", "E0"), ("emit_jump", None)), (("expr", "E0"), ("block", "B0")), (("emit_switch", None), ("block", "B0"))],
+    L + "assign": [(("expr", "E0"), ("emit_drop", None)), (("emit_drop", None), ("do_assign", None))],
+    L + "question_mark": [(("expr", "E0"), ("emit_switch", None)), (("emit_switch", None), ("return_value", None))],
+    L + "r#return": [(("expr", "OE"), ("return_value", None))],
+    L + "access": [(("expr", "E0"), ("assign_to_var", None))],
+    L + "normalized_function_call": [(("do_assign", "RECV"), ("closure-visit", "ARGS"))],
     LM + "r#match": [(("expr", None), ("emit_switch", None))],
 }
+
+
+def select_param(b, sel):
+    """origin-key prefix of the parameter selected by (type substring, nth); tuple parameters `(x, ty)` select x."""
+    sub, nth = SEL[sel]
+    locs = b.mir["locals"]
+    hits = []
+    for i in range(1, b.mir["argc"] + 1):
+        ty = locs[i]["ty"]
+        if sub in ty and not (sel.startswith("E") and ("Option<" in ty or "[" in ty.split("Meta<")[0])):
+            key = "arg%d" % i
+            if ty.startswith("(&") or ty.startswith("("):
+                key += ".0"
+            hits.append(key)
+    return hits[nth] if nth < len(hits) else None
 
 
 def param_keys(b):
@@ -149,8 +171,8 @@ def rule_o1(F):
         pk = param_keys(b)
         dom = mir.dominators(b)
         for (e1, e2) in chains:
-            k1 = pk.get(e1[1]) if e1[1] else None
-            k2 = pk.get(e2[1]) if e2[1] else None
+            k1 = select_param(b, e1[1]) if e1[1] else None
+            k2 = select_param(b, e2[1]) if e2[1] else None
             if (e1[1] and k1 is None) or (e2[1] and k2 is None):
                 r.missing("%s parameter %s/%s" % (hir.last(fn), e1[1], e2[1]))
                 continue
@@ -190,7 +212,7 @@ def rule_o1(F):
         defs = mir.Defs(b)
         nb = [(bi, t) for bi, t in mir.calls(b) if hir.last(mir.callee(t)) == "new_block"]
         ej = [(bi, t) for bi, t in mir.calls(b) if hir.last(mir.callee(t)) == "emit_jump"]
-        ex = events(b, defs, "expr", param_keys(b).get("condition"))
+        ex = events(b, defs, "expr", select_param(b, "E0"))
         dom = mir.dominators(b)
         ok = False
         if nb and ej and ex:
@@ -216,7 +238,7 @@ def rule_o1(F):
                     dl = deps(b, defs, ops["left"][1][0]) if mir.is_place_op(ops.get("left")) else set()
                     dr = deps(b, defs, ops["right"][1][0]) if mir.is_place_op(ops.get("right")) else set()
                     n += 1
-                    lk, rk = pk.get("l"), pk.get("r")
+                    lk, rk = select_param(b, "E0"), select_param(b, "E1")
                     okl = lk in dl and rk not in dl
                     okr = rk in dr and lk not in dr
                     r.inst("Value::BinOp #%d" % n, {"left_depends_on": sorted(dl), "right_depends_on": sorted(dr)})
